@@ -25,11 +25,12 @@ CHECKS["C34"] = dict(
     corrupt=corrupt_field("handle", "accepted", lambda e: (not e["accepted"]) if e["mut"] in ("sig_byte", "none") else None),
     nontrivial=lambda s: any(o["mut"] != "none" for o in s["ops"]),
     rule="one scenario per (acceptance path, key, underlay, network id): the honest record and every single-field mutation of it "
-         "(quick: 5 signature byte positions, 5 overlay damages, 2 underlay damages; thorough: all 65/32/8 positions); "
+         "(quick: 5 signature byte positions, 5 overlay damages, 2 underlay damages, network id checked on another id / an id differing only in the upper 32 bits / in bit 0, 31, 32, 63; thorough: all 65/32/8 positions and all 64 network-id bits); "
          "distinct = distinct (path, record descriptor list); non-trivial = contains at least one mutated record",
     exhaustive=dict(quick=True, thorough=True),
     assumptions=["secp256k1 signatures are unforgeable and keccak/sha3 collision-free (symbolic Recover)",
                  "byte damage is xor with one seeded bit (recovery id: 27<->28)",
+                 "64-bit network ids are carried symbolically (<<base, variant>>) and concretised by the driver (10 and 0x0102030405060708, xor 2^k / xor 0x8000000100000000)",
                  "the (r, n-s, v^1) twin of a signature counts as a signature made by the same key: its acceptance is a note, not a verdict",
                  "an honest underlay reply for another overlay than the one asked for is a note (the statement speaks about the record, not the request)"],
 )
@@ -59,22 +60,26 @@ CHECKS["C35"] = dict(
     gen=dict(
         quick=[dict(mode="exh", spec="AuthTokenGen.tla", cfg="AuthTokenGen.cfg", name="policy", env={"VERIF_FAMILY": "policy"}),
                dict(mode="exh", spec="AuthTokenGen.tla", cfg="AuthTokenGen.cfg", name="classes", env={"VERIF_FAMILY": "classes"}),
+               dict(mode="exh", spec="AuthTokenGen.tla", cfg="AuthTokenGen.cfg", name="realtime", env={"VERIF_FAMILY": "realtime"}),
                dict(mode="sim", spec="AuthTokenGen.tla", cfg="AuthTokenGen.cfg", name="life", env={"VERIF_FAMILY": "life"},
                     depth=6, num=40, max=300, dedup=True)],
         thorough=[dict(mode="exh", spec="AuthTokenGen.tla", cfg="AuthTokenGen.cfg", name="policy", env={"VERIF_FAMILY": "policy"}),
                   dict(mode="exh", spec="AuthTokenGen.tla", cfg="AuthTokenGen.cfg", name="classes", env={"VERIF_FAMILY": "classes"}),
+                  dict(mode="exh", spec="AuthTokenGen.tla", cfg="AuthTokenGen.cfg", name="realtime", env={"VERIF_FAMILY": "realtime"}),
                   dict(mode="sim", spec="AuthTokenGen.tla", cfg="AuthTokenGen.cfg", name="life", env={"VERIF_FAMILY": "life"},
                        depth=10, num=600, max=5000, dedup=True)]),
     judge=dict(spec="AuthTokenTrace.tla", cfg="AuthTokenTrace.cfg"),
     corrupt=_c35_corrupt,
     nontrivial=lambda s: any(o["op"] in ("enforce", "refresh") for o in s["ops"]),
     rule="policy: one scenario per (role, expiry) enforcing a genuine token on every (path, method) of the universe; classes: one "
-         "scenario per (token class, role): issue, damage or replace, enforce, refresh, enforce the refreshed slot; life: "
+         "scenario per (token class, role): issue, damage or replace, enforce, refresh, enforce the refreshed slot; realtime: 12 "
+         "histories with a real 2 s expiry (use while alive / expire / refresh in the orders that matter), run concurrently; life: "
          "TLC -simulate walks over issue/refresh/tamper/junk/enforce on two slots; distinct = distinct operation list; "
          "non-trivial = contains an Enforce or RefreshKey",
     exhaustive=dict(quick=False, thorough=False),
     assumptions=["AES-GCM is an ideal AEAD (symbolic Seal/Open), base64 is injective",
-                 "durations +3600 s / -3600 s stand for unexpired / born expired; no clock injection, 1 s granularity is not probed",
+                 "durations +3600 s / -3600 s stand for unexpired / born expired; real-time histories use a 2 s expiry and a 2.4 s wait: "
+                 "a call closer than 300 ms to the expiry is logged as 'edge' and not judged (note), so a slow machine cannot alarm",
                  "methods are the exact strings GET/POST/DELETE/PUT/get/'' (regexMatch is unanchored in the code; substrings such as GETX are not generated)",
                  "a zero duration (rejected by GenerateKey/RefreshKey before anything else) is not generated"],
 )
